@@ -114,7 +114,7 @@ pub fn c13_same_bytes_in_every_bounded_sink() {
 }
 
 #[cfg(feature = "alloc")]
-mod with_alloc {
+pub mod with_alloc {
     use super::*;
     use alloc::boxed::Box;
     use alloc::vec::Vec;
@@ -158,7 +158,7 @@ mod with_alloc {
 }
 
 #[cfg(feature = "std")]
-mod with_std {
+pub mod with_std {
     use super::*;
     use minicbor::encode::write::Writer;
     use std::io;
